@@ -41,6 +41,9 @@ type C11Case struct {
 	// Faults[i-1] == "held": reload i also names an address that another process (the tester) holds, so it must
 	// fail as a whole - and the retained address, present in the old and in the new configuration, stays in service
 	Faults []string `json:"faults,omitempty"`
+	// PadKeys: the retained service also carries this many other keys (a large deployment: preparing a
+	// configuration then takes a noticeable time, during which the old one must go on serving)
+	PadKeys int `json:"pad_keys,omitempty"`
 }
 
 var c11Shared = kit.KeySpec{ID: "shared", Cipher: kit.Chacha, Secret: "retained-secret"}
@@ -54,6 +57,7 @@ func genC11(t *rapid.T) C11Case {
 	for i := 0; i < n; i++ {
 		c.Faults = append(c.Faults, rapid.SampledFrom([]string{"", "", "", "held"}).Draw(t, "fault"))
 	}
+	c.PadKeys = rapid.SampledFrom([]int{0, 0, 0, 3000, 15000}).Draw(t, "padKeys")
 	c.Hammers = rapid.IntRange(1, 8).Draw(t, "hammers")
 	c.UDPHam = rapid.IntRange(0, 3).Draw(t, "udphammers")
 	c.PaceUs = rapid.SampledFrom([]int{0, 0, 100, 1000}).Draw(t, "pace")
@@ -123,8 +127,15 @@ func runC11Once(c C11Case, info *kit.Info) *kit.Finding {
 	defer s.close()
 	addr := s.pt.addr("127.0.0.1", c11Slot)
 	key := c11Shared.Key()
+	var pad []kit.KeySpec
+	for k := 0; k < c.PadKeys; k++ {
+		pad = append(pad, kit.KeySpec{ID: fmt.Sprintf("pad-%d", k), Cipher: kit.AllCiphers[k%len(kit.AllCiphers)], Secret: fmt.Sprintf("pad-secret-%d", k)})
+	}
+	if c.PadKeys > 0 {
+		info.Class("large-retained-service")
+	}
 	cfgPath := func(i int) string {
-		extra := c.Universe[:i%len(c.Universe)]
+		extra := append(append([]kit.KeySpec(nil), c.Universe[:i%len(c.Universe)]...), pad...)
 		return s.writeConfig(withRetained(c.Configs[i], extra).renderYAML(s.pt))
 	}
 	// an address held by somebody else, for the reloads that must fail
@@ -141,7 +152,7 @@ func runC11Once(c C11Case, info *kit.Info) *kit.Finding {
 		}
 	}
 	faultyPath := func(i int) string {
-		extra := c.Universe[:i%len(c.Universe)]
+		extra := append(append([]kit.KeySpec(nil), c.Universe[:i%len(c.Universe)]...), pad...)
 		y := withRetained(c.Configs[i], extra).renderYAML(s.pt)
 		svc := fmt.Sprintf("  - listeners:\n      - type: tcp\n        address: %s\n    keys:\n      - id: held\n        cipher: chacha20-ietf-poly1305\n        secret: held-secret\n", yq(heldAddr))
 		if c.Seed%2 == 0 { // before everything else, or after the last service
